@@ -15,6 +15,7 @@ import (
 	"strings"
 	"sync"
 	"testing"
+	"time"
 
 	"pgregory.net/rapid"
 )
@@ -200,6 +201,28 @@ type replayFile struct {
 	Subject  string          `json:"subject"`
 	Msg      string          `json:"msg,omitempty"`
 	Case     json.RawMessage `json:"case"`
+	// Zone: the process-local time zone the case ran under ("" = as found, UTC in this sandbox)
+	Zone string `json:"zone,omitempty"`
+}
+
+// The process-local time zone is part of the environment a library runs in (zone-less dates read
+// from files are interpreted in SOME zone): a third of the shards run with time.Local set to a
+// fixed zone east of UTC, a third west of it. Replay files record it.
+var zones = map[string]int{"Etc/GMT-2": 2 * 3600, "Pacific/Marquesas": -(9*3600 + 1800)}
+var localZone string
+
+// LocalZone is the name of the zone installed by SetZone ("" = none).
+func LocalZone() string { return localZone }
+
+// SetZone installs a process-local zone (and TZ for child processes); "" leaves things alone.
+func SetZone(name string) {
+	off, ok := zones[name]
+	if !ok {
+		return
+	}
+	localZone = name
+	time.Local = time.FixedZone(name, off)
+	_ = os.Setenv("TZ", name)
 }
 
 func writeReplay(path, id, subject, msg string, cas any) {
@@ -207,7 +230,7 @@ func writeReplay(path, id, subject, msg string, cas any) {
 	if err != nil {
 		raw = []byte(fmt.Sprintf("%q", fmt.Sprintf("unmarshalable case: %v: %+v", err, cas)))
 	}
-	b, _ := json.MarshalIndent(replayFile{Property: id, Subject: subject, Msg: msg, Case: raw}, "", " ")
+	b, _ := json.MarshalIndent(replayFile{Property: id, Subject: subject, Msg: msg, Case: raw, Zone: localZone}, "", " ")
 	_ = os.MkdirAll(filepath.Dir(path), 0o755)
 	_ = os.WriteFile(path, b, 0o644)
 }
@@ -238,7 +261,7 @@ func (p *pending) set(id, subject string, cas any) {
 	if err != nil {
 		return
 	}
-	b, _ := json.Marshal(replayFile{Property: id, Subject: subject, Msg: "process died while executing this case", Case: raw})
+	b, _ := json.Marshal(replayFile{Property: id, Subject: subject, Msg: "process died while executing this case", Case: raw, Zone: localZone})
 	_ = p.f.Truncate(0)
 	_, _ = p.f.WriteAt(b, 0)
 }
@@ -400,6 +423,9 @@ func Replay(t *testing.T, id string, props []AnyProp) {
 		if rf.Property != id {
 			continue
 		}
+		if rf.Zone != "" {
+			SetZone(rf.Zone)
+		}
 		found := false
 		for _, p := range props {
 			if p.PropSubject() != rf.Subject {
@@ -451,6 +477,15 @@ func SetExtra(key string, v any) {
 
 // Main is to be called from TestMain: it runs the tests and then writes the shard file.
 func Main(m *testing.M) {
+	flag.Parse()
+	if *flagShardOut != "" {
+		switch *flagShard % 3 {
+		case 1:
+			SetZone("Etc/GMT-2")
+		case 2:
+			SetZone("Pacific/Marquesas")
+		}
+	}
 	code := m.Run()
 	flush()
 	removeBinaries()
